@@ -96,4 +96,29 @@ else:
             b = slice(t * ds, (t + 1) * ds)
             if not (close(sm[t], mc[b], 1e-3) and close(sP[t], Pc[b, b], 1e-3)):
                 fails.append({"fn": "kalman_smoother", "dims": [ds, do, T], "t": t, "observed_mean": [float(v) for v in sm[t]], "required_mean": [float(v) for v in mc[b]]})
+if which == "kalman":
+    # HISTORY: the same model matrices and length with ANOTHER prior covariance / mean, in the same process, must give
+    # the moments of that prior (nothing computed for an earlier call may be reused for a different input)
+    ds, do, T = 2, 1, 4
+    r2 = np.random.default_rng(7)
+    A = r2.normal(size=(ds, ds)) * 0.5; C = r2.normal(size=(do, ds)); Q = np.eye(ds) * 0.3; R = np.eye(do) * 0.2
+    y = r2.normal(size=(T, do)); m0 = r2.normal(size=ds)
+    def np_filter(m0, P0):
+        m, P, lm, out = m0, P0, 0.0, []
+        for t in range(T):
+            if t > 0:
+                m, P = A @ m, A @ P @ A.T + Q
+            S_ = C @ P @ C.T + R; K = P @ C.T @ np.linalg.inv(S_); v = y[t] - C @ m
+            lm += float(-0.5 * (v @ np.linalg.inv(S_) @ v + np.log(np.linalg.det(2 * np.pi * S_))))
+            m, P = m + K @ v, P - K @ C @ P
+            out.append((m, P))
+        return out, lm
+    for label, (mm, PP) in [("first prior", (m0, np.eye(ds) * 0.7)), ("same model, another prior covariance", (m0, np.eye(ds) * 3.0 + 0.4)), ("same model, another prior mean", (m0 + 2.0, np.eye(ds) * 3.0 + 0.4)), ("first prior again", (m0, np.eye(ds) * 0.7))]:
+        fm, fP, lm = SS.kalman_filter(jnp.array(y), jnp.array(mm), jnp.array(PP), jnp.array(A), jnp.array(Q), jnp.array(C), jnp.array(R))
+        want, lm_req = np_filter(mm, PP)
+        bad = [t for t in range(T) if not (close(fm[t], want[t][0], 1e-3) and close(fP[t], want[t][1], 1e-3))]
+        if bad or not close(lm, lm_req, 1e-3):
+            fails.append({"fn": "kalman_filter", "history": "calls in one process with the same A, Q, C, R, T: " + label, "t": bad[:1], "observed_log_marginal": float(lm), "required": lm_req,
+                          "observed_mean": [float(v) for v in fm[bad[0]]] if bad else None, "required_mean": [float(v) for v in want[bad[0]][0]] if bad else None})
+            break
 emit({"confirmed": bool(fails), "tier": "native", "which": which, "failures": fails[:3]})
